@@ -29,7 +29,8 @@ ClaimStep ==
   \E c \in Cls \ done :
     LET r == Claim(s, gts[c]) IN
     /\ ev' = [op |-> "claim", gt |-> gts[c], ok |-> r.ok, pre |-> s, post |-> [bal |-> r.bal, rem |-> r.rem],
-              paid |-> r.paid, init |-> init]
+              paid |-> r.paid, init |-> init, errclass |-> IF r.ok THEN "" ELSE "other",
+              alldone |-> done \cup {c} = Cls]
     /\ s' = [bal |-> r.bal, rem |-> r.rem]
     /\ done' = done \cup {c}
     /\ got' = [got EXCEPT ![c] = r.paid]
@@ -39,7 +40,7 @@ BadClaim ==
   /\ done = {} /\ s.rem < GMax * NCl
   /\ LET r == Claim(s, s.rem + 1) IN
        /\ ev' = [op |-> "claim", gt |-> s.rem + 1, ok |-> r.ok, pre |-> s, post |-> [bal |-> r.bal, rem |-> r.rem],
-                 paid |-> r.paid, init |-> init]
+                 paid |-> r.paid, init |-> init, errclass |-> "other", alldone |-> FALSE]
   /\ UNCHANGED <<init, s, gts, done, got, fac>>
 FactorStep ==
   /\ done = {} /\ init.rem = 0 /\ \A t \in Toks : init.bal[t] = 0      \* one bank is enough for this family
@@ -55,7 +56,7 @@ Spec == Init /\ [][Next]_vars
 
 EvMon(e) == e.op # "none" =>
   /\ MonPaidFormula(e) /\ MonNoOverpay(e) /\ MonRemaining(e) /\ MonFloorShare(e) /\ MonLastDrains(e)
-  /\ MonFailedClaim(e) /\ MonFactors(e)
+  /\ MonFailedClaim(e) /\ MonFactors(e) /\ MonClaimSucceeds(e) /\ MonDrainedAtEnd(e)
 StepMon == [][EvMon(ev')]_vars          \* every transition, not only those into new states
 BadFails == ev.op = "claim" /\ ev.gt > ev.pre.rem => ~ev.ok
 (* history laws *)
